@@ -50,6 +50,10 @@ type modelCfg struct {
 	// Resal: after building, incrementally re-submit rule Resal[0] with the salience it has in Rules
 	// (the set was first built with salience Resal[1] for it)
 	Resal []int64 `json:"resal,omitempty"`
+	// Repeats: the name list repeats a name. The statement does not say how often a repeated name runs,
+	// so only this is judged: no unselected rule runs, every named existing rule runs at least once,
+	// and a list without any existing name fails without running anything.
+	Repeats bool `json:"repeats,omitempty"`
 	// Diff: also run this (tag-free) twin model on the same input with a fresh engine and require the
 	// same error nil-ness, result-map keys and - for sequential models - the same event log
 	Diff string `json:"diff,omitempty"`
@@ -247,6 +251,28 @@ func modelScenarioWith(cfg modelCfg, prebuilt *builder.RuleBuilder) *hx.Scenario
 			}
 			if x.pan != nil {
 				return []hx.Finding{{Sig: pfx + "panic", Msg: fmt.Sprintf("the call panicked: %v", x.pan) + desc()}}
+			}
+			if cfg.Repeats {
+				named := map[string]bool{}
+				for _, n := range cfg.Names {
+					named[n] = true
+				}
+				any := false
+				for i, r := range cfg.Rules {
+					cnt := x.log.Count("s", int64(i+1))
+					if named[r.Name] {
+						any = true
+						if cnt == 0 && !strings.Contains(cfg.Model, "NSort") && !strings.Contains(cfg.Model, "NConc") {
+							fs = append(fs, hx.Finding{Sig: pfx + "named-rule-did-not-run", Msg: fmt.Sprintf("rule %s is named (repeatedly or once) but did not run", r.Name) + desc()})
+						}
+					} else if cnt > 0 {
+						fs = append(fs, hx.Finding{Sig: pfx + "unselected-rule-ran", Msg: fmt.Sprintf("rule %s was not named but ran %d time(s)", r.Name, cnt) + desc()})
+					}
+				}
+				if !any && (len(x.log.Evs) > 0 || x.err == nil) {
+					fs = append(fs, hx.Finding{Sig: pfx + "nothing-selectable", Msg: "no named rule exists: the call must fail without running anything" + desc()})
+				}
+				return fs
 			}
 			if c := ref.Judge(plans, toRefLog(x.log), x.err != nil); c != "" {
 				fs = append(fs, hx.Finding{Sig: pfx + sigOf(c), Msg: c + desc()})
